@@ -14,6 +14,7 @@ def t3(a, b, c): return ('t3', a, b, c)
 def s3(a, b, c): return ('s3', a, b, c)
 def m3(a, b, c): return ('m3', a, b, c)
 def at(a, x): return ('at', a, x)
+def ta(x, a): return ('ta', x, a)
 def w(a, b, c, d): return ('w', a, b, c, d)
 def mvar(a): return ('mvar', a)
 def madd(x, y): return ('madd', x, y)
@@ -79,6 +80,8 @@ QUICK = [
     T('B17', 'Lb', 3, [add(u(app(u(var(0)), var(1)))), add(app(u(var(0)), var(2))), union(app(u(var(0)), var(1)), app(u(var(0)), var(2))), add(u(var(2))), union(u(var(0)), u(var(2))),
                        readd(app(u(var(0)), var(1)))],
       note='a class shrinks twice: first by a union of two of its own instances, then because a child loses its slot; the parent must follow both times'),
+    T('B18', 'Lb', 3, [add(t3(0, 1, 2)), add(t3(1, 0, 2)), union(t3(0, 1, 2), t3(1, 0, 2)), add(t3(0, 2, 1)), union(t3(0, 1, 2), t3(0, 2, 1)), add(u(t3(0, 1, 2))), add(u(t3(1, 2, 0))), add(u(t3(2, 1, 0)))],
+      distinct=[[0, 1, 2]], note='a parent is inserted over a class that already has the full symmetric group: it must pick up both generators at once'),
 ]
 
 
@@ -88,9 +91,17 @@ def reorder(t, mode):
     adds = [op for op in t.ops if op[0] == 'add']; unions = [op for op in t.ops if op[0] == 'union']
     if mode == 'uflip':      # the unions in the opposite order (insertions stay before their first use)
         ops = adds + list(reversed(unions))
+    elif mode == 'ufirst':   # only what the unions need is inserted before them; everything else afterwards
+        need = []
+        for op in unions:
+            for x in (op[1], op[2]):
+                if x not in need: need.append(x)
+        ops = [('add', x) for x in need] + unions + [op for op in adds if op[1] not in need]
     elif mode == 'flip': ops = [('union', op[2], op[1]) if op[0] == 'union' else op for op in t.ops if op[0] != 'readd']
     else: ops = list(reversed(adds)) + [('union', op[2], op[1]) for op in reversed(unions)]
-    return T(t.name + '~' + mode, t.lang, t.nnames, ops, t.analysis, t.distinct, 'reordering (%s) of %s' % (mode, t.name), group=t.name)
+    r = T(t.name + '~' + mode, t.lang, t.nnames, ops, t.analysis, t.distinct, 'reordering (%s) of %s' % (mode, t.name), group=t.name)
+    r.light = t.light
+    return r
 
 def _with_groups(base, which):
     out = []
@@ -114,6 +125,10 @@ RW = [
       note='multi-pattern with a repeated slot across equations: ?r == (app ?a ?b), ?a == (var $x), ?b == (var $x)'),
     T('M2', 'Lb', 4, [add(app(var(0), var(1))), add(lam(0, app(var(0), var(1)))), ematch(app('?a', '?b')), ematch(app('?a', '?a')), ematch(lam(2, '?b')), ematch(app(var(3), '?b'))], late={2: 4, 3: 5},
       note='patterns with variables, a repeated variable, a binder, a nested leaf'),
+    T('M5', 'Lb', 6, [add(ta(k(0, 1), 2)), ematch(ta('?a', 3)), ematch(ta(k(3, 4), 5))], late={3: 1, 4: 1, 5: 1}, distinct=[[0, 1, 2]],
+      note='node type whose child comes before its own slot: the pattern slot must be paired with the node slot, not with a slot of the child'),
+    T('MM3', 'Lb', 3, [add(app(var(0), var(1))), mmatch(('?q', app('?b', '?c')), ('?r', app('?a', '?b')), ('?a', var(2)), ('?b', var(2)))], late={2: 1},
+      note='multi-pattern whose equations force two siblings to be the same variable term although the only node has two different ones'),
     T('R1', 'Lf', 6, [add(f(0, 1)), add(f(2, 3)), union(f(0, 1), f(2, 3)), rewrite(rule('f-to-g', f(4, 5), g(5, 4))), probe(g(1, 0)), probe(g(3, 2)), rewrite(rule('f-to-g', f(4, 5), g(5, 4)))], late={4: 3, 5: 3},
       note='(f $x $y) => (g $y $x) on every final state of T1; second application must report no change'),
     T('R2', 'Lb', 3, [add(app(var(0), var(1))), add(app(var(1), var(1))), rewrite(rule('comm', app('?a', '?b'), app('?b', '?a')), rule('idem', app('?a', '?a'), '?a')), probe(app(var(1), var(0))), rewrite(rule('comm', app('?a', '?b'), app('?b', '?a')), rule('idem', app('?a', '?a'), '?a'))],
@@ -157,9 +172,14 @@ AN = (_an('A1', [add(app(var(0), var(1))), add(var(2)), union(app(var(0), var(1)
       + _an('A3', [add(u(u(app(var(0), var(1))))), add(u(var(2))), add(app(var(2), var(2))), add(lam(2, var(2))), union(var(2), app(var(0), var(1)))],
             'the deprecated (smaller) class improves; its parent chain does not become congruent to existing nodes'))
 AN = AN + _an('A4', [add(u(u(app(var(0), var(0))))), add(var(1)), union(var(1), app(var(0), var(0)))], 'a lone leaf is merged into a class with the same slot count that has parents: the SURVIVING class improves', nn=2)
+_la, _lb = lam(0, var(0)), lam(0, u(var(0)))
+AN = AN + _an('A5', [add(_la), add(_lb), add(app(u(_lb), _la)), add(app(u(_lb), _lb)), add(app(u(_la), _la)), add(app(u(_la), _lb)), union(_la, _lb)],
+              'a node uses both the class that is merged away and the class whose datum improves in the same rebuild: it must still be re-canonicalised (congruence)', nn=1)
+_cc = app(var(0), var(1))
+AN = AN + _an('A6', [add(u(app(u(_cc), u(u(_cc))))), add(var(2)), union(_cc, var(2))], 'the improving class feeds one parent at two different depths: the parent datum improves twice within one rebuild')
 for _t in AN: _t.light = True
 QUICK = QUICK + RW + EX + AN
-QUICK = _with_groups(QUICK, {'T1': ('rev',), 'T3': ('rev',), 'T4': ('flip',), 'B2': ('flip',), 'B5': ('rev',), 'TH2': ('rev',), 'B11': ('uflip',)})
+QUICK = _with_groups(QUICK, {'T1': ('rev',), 'T3': ('rev',), 'T4': ('flip',), 'B2': ('flip',), 'B5': ('rev',), 'TH2': ('rev',), 'B11': ('uflip',), 'B18': ('rev',), 'A5-MinSize': ('ufirst',), 'A5-Depth': ('ufirst',)})
 
 for _t in QUICK:
     if _t.name.startswith('B11'): _t.light = True
